@@ -660,3 +660,386 @@ theorem sum_le_of_all_le : ∀ (l : List Nat) (g : Nat), (∀ x ∈ l, x ≤ g) 
     simp only [List.sum_cons, List.length_cons, Nat.add_mul, Nat.one_mul]; omega
 
 end AioslskVerif.Rate
+
+namespace AioslskVerif.Rate
+open AioslskVerif.Generated.Rate
+
+theorem refill_L (l : Lim) (t : Nat) : (refill l t).1.L = l.L := by
+  simp only [refill, addTokens]
+  split
+  · rfl
+  · split <;> (try split) <;> rfl
+
+theorem poll_L (l : Lim) (t : Nat) : (poll l t).1.L = l.L := by
+  simp only [poll]
+  split <;> simp [refill_L]
+
+theorem poll_result (l : Lim) (t : Nat) : (poll l t).2 = 0 ∨ (poll l t).2 = minBucket := by
+  simp only [poll]; split <;> simp
+
+/-! ### The whole network: every grant under a limit is a poll of the current object
+
+`PolledAt t l G l' G'`: the limiter state `l'` and the ghost total `G'` result from `l`, `G` by finitely many polls,
+all at clock reading `t`. -/
+
+inductive PolledAt (t : Nat) (l : Lim) (G : Nat) : Lim → Nat → Prop
+  | refl : PolledAt t l G l G
+  | step {l1 : Lim} {G1 : Nat} : PolledAt t l G l1 G1 → PolledAt t l G (poll l1 t).1 (G1 + (poll l1 t).2)
+
+theorem PolledAt.trans {t : Nat} {l l1 l2 : Lim} {G G1 G2 : Nat} (h1 : PolledAt t l G l1 G1)
+    (h2 : PolledAt t l1 G1 l2 G2) : PolledAt t l G l2 G2 := by
+  induction h2 with
+  | refl => exact h1
+  | step _ ih => exact .step ih
+
+theorem PolledAt.head {t : Nat} (l : Lim) (G : Nat) {l2 : Lim} {G2 : Nat}
+    (h : PolledAt t (poll l t).1 (G + (poll l t).2) l2 G2) : PolledAt t l G l2 G2 :=
+  PolledAt.trans (.step .refl) h
+
+theorem phi_mono_time (Lmax : Nat) (l : Lim) (now dt G : Nat) (hl : l.last ≤ now) :
+    phi Lmax l (now + dt) G ≤ phi Lmax l now G + Lmax * dt := by
+  have htime : Lmax * (now + dt - l.last) = Lmax * (now - l.last) + Lmax * dt := by
+    rw [← Nat.mul_add]; congr 1; omega
+  unfold phi; rw [htime]; split <;> omega
+
+/-- polls at one clock reading `now + dt`, starting from a state that is well formed at `now` -/
+theorem polledAt_phi (Lmax : Nat) {l l' : Lim} {now dt G G' : Nat} (h : PolledAt (now + dt) l G l' G')
+    (hwf : l.WF now) (hL : l.L ≤ Lmax) :
+    l'.WF (now + dt) ∧ l'.L = l.L ∧ G ≤ G' ∧ phi Lmax l' (now + dt) G' ≤ phi Lmax l now G + Lmax * dt := by
+  induction h with
+  | refl =>
+    exact ⟨⟨hwf.1, by have := hwf.2.1; omega, hwf.2.2⟩, rfl, Nat.le_refl _, phi_mono_time Lmax l now dt G hwf.2.1⟩
+  | @step l1 G1 _ ih =>
+    obtain ⟨w1, e1, g1, p1⟩ := ih
+    obtain ⟨w2, e2, _, _, p2⟩ := poll_step Lmax l1 (now + dt) 0 G1 w1 (by omega)
+    rw [Nat.add_zero] at w2 e2 p2
+    rw [Nat.mul_zero, Nat.add_zero] at p2
+    exact ⟨w2, by omega, by omega, by omega⟩
+
+/-- a limiter *object* evolves by polls at clock `t`; the ghost total counts grants made under a limit only -/
+def Evolves (t : Nat) (c : NObj) (G : Nat) (c' : NObj) (G' : Nat) : Prop :=
+  match c with
+  | .unlimited b l => c' = .unlimited b l ∧ G' = G
+  | .limited o => ∃ o', c' = .limited o' ∧ PolledAt t o.lim G o'.lim G'
+
+theorem Evolves.rfl' (t : Nat) (c : NObj) (G : Nat) : Evolves t c G c G := by
+  cases c with
+  | unlimited b l => exact ⟨rfl, rfl⟩
+  | limited o => exact ⟨o, rfl, .refl⟩
+
+theorem Evolves.trans {t : Nat} {c c1 c2 : NObj} {G G1 G2 : Nat} (h1 : Evolves t c G c1 G1)
+    (h2 : Evolves t c1 G1 c2 G2) : Evolves t c G c2 G2 := by
+  cases c with
+  | unlimited b l =>
+    obtain ⟨rfl, rfl⟩ := h1
+    exact h2
+  | limited o =>
+    obtain ⟨o1, rfl, p1⟩ := h1
+    obtain ⟨o2, rfl, p2⟩ := h2
+    exact ⟨o2, rfl, p1.trans p2⟩
+
+/-- tokens of a grant list that count against a limit: all of them if the granting object is limited -/
+def limitedTotal (c : NObj) (gs : List (Nat × Nat)) : Nat :=
+  match c with
+  | .unlimited _ _ => 0
+  | .limited _ => (gs.map (·.2)).sum
+
+theorem limitedTotal_nil (c : NObj) : limitedTotal c [] = 0 := by cases c <;> simp [limitedTotal]
+
+theorem limitedTotal_cons (c : NObj) (g : Nat × Nat) (gs : List (Nat × Nat)) :
+    limitedTotal c (g :: gs) = limitedTotal c [g] + limitedTotal c gs := by
+  cases c <;> simp [limitedTotal]
+
+theorem limitedTotal_append (c : NObj) (gs hs : List (Nat × Nat)) :
+    limitedTotal c (gs ++ hs) = limitedTotal c gs + limitedTotal c hs := by
+  cases c <;> simp [limitedTotal]
+
+/-- is the object limited? (kind never changes) -/
+def NObj.isLimited : NObj → Bool
+  | .unlimited _ _ => false
+  | .limited _ => true
+
+theorem Evolves.kind {t : Nat} {c c' : NObj} {G G' : Nat} (h : Evolves t c G c' G') : c'.isLimited = c.isLimited := by
+  cases c with
+  | unlimited b l => obtain ⟨rfl, _⟩ := h; rfl
+  | limited o => obtain ⟨o', rfl, _⟩ := h; rfl
+
+theorem limitedTotal_kind {c c' : NObj} (h : c'.isLimited = c.isLimited) (gs : List (Nat × Nat)) :
+    limitedTotal c' gs = limitedTotal c gs := by
+  cases c <;> cases c' <;> simp_all [limitedTotal, NObj.isLimited]
+
+/-- a request entering the current object -/
+theorem enterCur_evolves (p now : Nat) (c : NObj) (G : Nat) :
+    Evolves now c G (enterCur p now c).1
+      (G + limitedTotal c (match (enterCur p now c).2 with | .granted g => [(p, g)] | _ => [])) := by
+  cases c with
+  | unlimited b l => exact ⟨rfl, by simp [limitedTotal]⟩
+  | limited o =>
+    simp only [enterCur]
+    cases hh : o.holder with
+    | some h => exact ⟨_, rfl, by simpa [limitedTotal] using (PolledAt.refl : PolledAt now o.lim G o.lim G)⟩
+    | none =>
+      simp only []
+      by_cases hz : (Rate.poll o.lim now).2 = 0
+      · simp only [hz, if_true]
+        refine ⟨_, rfl, ?_⟩
+        have := PolledAt.step (PolledAt.refl : PolledAt now o.lim G o.lim G)
+        simpa [limitedTotal, hz] using this
+      · simp only [hz, if_false]
+        refine ⟨_, rfl, ?_⟩
+        have := PolledAt.step (PolledAt.refl : PolledAt now o.lim G o.lim G)
+        simpa [limitedTotal] using this
+
+/-- a request entering the chain either stops at a replaced object (the current one is untouched) or enters the
+current object -/
+theorem enterChain_cur (p now : Nat) : ∀ (olds : List NObj) (cur : NObj),
+    ((enterChain p now olds cur).2.1 = cur ∧ (enterChain p now olds cur).2.2 = .queued) ∨
+    ((enterChain p now olds cur).2.1 = (enterCur p now cur).1 ∧ (enterChain p now olds cur).2.2 = (enterCur p now cur).2)
+  | [], cur => by right; simp [enterChain]
+  | .unlimited b l :: rest, cur => by simpa [enterChain] using enterChain_cur p now rest cur
+  | .limited o :: rest, cur => by
+    simp only [enterChain]
+    cases hh : o.holder with
+    | some h => left; simp
+    | none => simpa using enterChain_cur p now rest cur
+
+theorem enterChain_evolves (p now : Nat) (olds : List NObj) (cur : NObj) (G : Nat) :
+    Evolves now cur G (enterChain p now olds cur).2.1
+      (G + limitedTotal cur (match (enterChain p now olds cur).2.2 with | .granted g => [(p, g)] | _ => [])) := by
+  rcases enterChain_cur p now olds cur with ⟨h1, h2⟩ | ⟨h1, h2⟩
+  · rw [h1, h2]; simpa [limitedTotal_nil] using Evolves.rfl' now cur G
+  · rw [h1, h2]; exact enterCur_evolves p now cur G
+
+theorem enterAll_evolves (now : Nat) : ∀ (ps : List Nat) (olds : List NObj) (cur : NObj) (G : Nat),
+    Evolves now cur G (enterAll now ps olds cur).2.1 (G + limitedTotal cur (enterAll now ps olds cur).2.2)
+  | [], olds, cur, G => by simpa [enterAll, limitedTotal_nil] using Evolves.rfl' now cur G
+  | p :: ps, olds, cur, G => by
+    have h1 := enterChain_evolves p now olds cur G
+    have hk := h1.kind
+    have h2 := enterAll_evolves now ps (enterChain p now olds cur).1 (enterChain p now olds cur).2.1
+      (G + limitedTotal cur (match (enterChain p now olds cur).2.2 with | .granted g => [(p, g)] | _ => []))
+    rw [limitedTotal_kind hk] at h2
+    have h := h1.trans h2
+    simp only [enterAll]
+    cases hf : (enterChain p now olds cur).2.2 with
+    | granted n =>
+      simp only [hf] at h ⊢
+      rw [limitedTotal_cons, ← Nat.add_assoc]
+      exact h
+    | asleep => simp only [hf, limitedTotal_nil, Nat.add_zero] at h ⊢; exact h
+    | queued => simp only [hf, limitedTotal_nil, Nat.add_zero] at h ⊢; exact h
+
+theorem cascade_polled (now : Nat) : ∀ (q : List Nat) (lim : Lim) (G : Nat),
+    PolledAt now lim G (cascade lim now q).1.lim (G + (cascade lim now q).2.length * minBucket) ∧
+    (cascade lim now q).1.lim.L = lim.L
+  | [], lim, G => by simpa [cascade] using (PolledAt.refl : PolledAt now lim G lim G)
+  | p :: rest, lim, G => by
+    simp only [cascade]
+    by_cases hz : (Rate.poll lim now).2 = 0
+    · simp only [hz, if_true, List.length_nil, Nat.zero_mul, Nat.add_zero]
+      have := PolledAt.step (PolledAt.refl : PolledAt now lim G lim G)
+      rw [hz, Nat.add_zero] at this
+      exact ⟨this, poll_L lim now⟩
+    · simp only [hz, if_false, List.length_cons]
+      have hg : (Rate.poll lim now).2 = minBucket := by
+        have := poll_result lim now; omega
+      have ih := cascade_polled now rest (Rate.poll lim now).1 (G + minBucket)
+      refine ⟨?_, by rw [ih.2, poll_L]⟩
+      apply PolledAt.head
+      rw [hg]
+      have : G + ((cascade (Rate.poll lim now).1 now rest).2.length + 1) * minBucket
+          = G + minBucket + (cascade (Rate.poll lim now).1 now rest).2.length * minBucket := by
+        rw [Nat.add_mul, Nat.one_mul]; omega
+      rw [this]
+      exact ih.1
+
+theorem holderPoll_polled (o : LObj) (now G : Nat) :
+    PolledAt now o.lim G (o.holderPoll now).1.lim (G + (o.holderPoll now).2.length * minBucket) := by
+  unfold LObj.holderPoll
+  cases hh : o.holder with
+  | none => simpa using (PolledAt.refl : PolledAt now o.lim G o.lim G)
+  | some h =>
+    simp only []
+    by_cases hz : (Rate.poll o.lim now).2 = 0
+    · simp only [hz, if_true, List.length_nil, Nat.zero_mul, Nat.add_zero]
+      have := PolledAt.step (PolledAt.refl : PolledAt now o.lim G o.lim G)
+      rw [hz, Nat.add_zero] at this
+      exact this
+    · simp only [hz, if_false, List.length_cons]
+      have hg : (Rate.poll o.lim now).2 = minBucket := by
+        have := poll_result o.lim now; omega
+      have ih := (cascade_polled now o.queue (Rate.poll o.lim now).1 (G + minBucket)).1
+      apply PolledAt.head
+      rw [hg]
+      have : G + ((cascade (Rate.poll o.lim now).1 now o.queue).2.length + 1) * minBucket
+          = G + minBucket + (cascade (Rate.poll o.lim now).1 now o.queue).2.length * minBucket := by
+        rw [Nat.add_mul, Nat.one_mul]; omega
+      rw [this]
+      exact ih
+
+theorem sum_const_pairs (xs : List Nat) (q : Nat) : ((xs.map (·, q)).map (·.2)).sum = xs.length * q := by
+  induction xs with
+  | nil => simp
+  | cons x xs ih => simp only [List.map_cons, List.sum_cons, List.length_cons, ih, Nat.add_mul, Nat.one_mul]; omega
+
+theorem wakeCur_evolves (now : Nat) (c : NObj) (G : Nat) :
+    Evolves now c G (wakeCur now c).1 (G + limitedTotal c (wakeCur now c).2) := by
+  cases c with
+  | unlimited b l => exact ⟨rfl, by simp [wakeCur, limitedTotal]⟩
+  | limited o =>
+    refine ⟨(o.holderPoll now).1, rfl, ?_⟩
+    have := holderPoll_polled o now G
+    have hs : limitedTotal (.limited o) (wakeCur now (.limited o)).2 = (o.holderPoll now).2.length * minBucket := by
+      show (((o.holderPoll now).2.map (·, minBucket)).map (·.2)).sum = _
+      exact sum_const_pairs _ _
+    rw [hs]
+    exact this
+
+theorem wakeOld_evolves (now i : Nat) (olds : List NObj) (cur : NObj) (G : Nat) :
+    Evolves now cur G (wakeOld now i olds cur).2.1 (G + limitedTotal cur (wakeOld now i olds cur).2.2) := by
+  unfold wakeOld
+  split
+  · exact enterAll_evolves now _ _ cur G
+  · simpa [limitedTotal_nil] using Evolves.rfl' now cur G
+
+/-- one `poll` step of the network: the current object evolves by polls at the new clock reading -/
+theorem netPoll_evolves (n : Net) (pid dt G : Nat) :
+    Evolves (n.now + dt) n.cur G (n.poll pid dt).1.cur (G + limitedTotal n.cur (n.poll pid dt).2) ∧
+    (n.poll pid dt).1.now = n.now + dt := by
+  unfold Net.poll
+  cases hf : findPending pid n.objs 0 with
+  | none =>
+    simp only []
+    exact ⟨enterCur_evolves pid (n.now + dt) n.cur G, trivial⟩
+  | some ib =>
+    obtain ⟨i, b⟩ := ib
+    cases b with
+    | false =>
+      simp only []
+      exact ⟨by simpa [limitedTotal_nil] using Evolves.rfl' (n.now + dt) n.cur G, trivial⟩
+    | true =>
+      simp only []
+      split
+      · exact ⟨wakeOld_evolves (n.now + dt) i n.olds n.cur G, rfl⟩
+      · exact ⟨wakeCur_evolves (n.now + dt) n.cur G, rfl⟩
+
+/-! #### runs of the whole network -/
+
+inductive NOp
+  | poll (pid dt : Nat)        -- clock += dt, poller `pid` is stepped
+  | setLimit (kbps : Nat)
+deriving Repr
+
+structure NRun where
+  net : Net
+  granted : Nat                -- ghost: tokens granted while a limit was in force, all connections together
+
+def nstep (s : NRun) : NOp → NRun
+  | .poll pid dt =>
+    let r := s.net.poll pid dt
+    { net := r.1, granted := s.granted + limitedTotal s.net.cur r.2 }
+  | .setLimit k => { s with net := s.net.setLimit k }
+
+def nrun (s : NRun) (ops : List NOp) : NRun := ops.foldl nstep s
+
+def nelapsed : List NOp → Nat
+  | [] => 0
+  | .poll _ dt :: r => dt + nelapsed r
+  | .setLimit _ :: r => nelapsed r
+
+def nchanges : List NOp → Nat
+  | [] => 0
+  | .poll _ _ :: r => nchanges r
+  | .setLimit _ :: r => 1 + nchanges r
+
+def NLimitsWithin (Lmax : Nat) : List NOp → Prop
+  | [] => True
+  | .poll _ _ :: r => NLimitsWithin Lmax r
+  | .setLimit k :: r => k * bytesPerKb ≤ Lmax ∧ NLimitsWithin Lmax r
+
+theorem phiL_mono_time (Lmax : Nat) (lim : Limiter) (now dt G : Nat) (hwf : lim.WF now Lmax) :
+    lim.WF (now + dt) Lmax ∧ phiL Lmax lim (now + dt) G ≤ phiL Lmax lim now G + Lmax * dt := by
+  cases lim with
+  | limited l =>
+    exact ⟨⟨⟨hwf.1.1, by have := hwf.1.2.1; omega, hwf.1.2.2⟩, hwf.2⟩, phi_mono_time Lmax l now dt G hwf.1.2.1⟩
+  | unlimited b last =>
+    have hl : last ≤ now := hwf
+    have htime : Lmax * (now + dt - last) = Lmax * (now - last) + Lmax * dt := by
+      rw [← Nat.mul_add]; congr 1; omega
+    refine ⟨?_, ?_⟩
+    · show last ≤ now + dt; omega
+    · unfold phiL; dsimp only; rw [htime]; omega
+
+/-- the accounting invariant for one step of the network -/
+theorem nstep_phi (Lmax : Nat) (s : NRun) (op : NOp) (hwf : s.net.cur.limiter.WF s.net.now Lmax)
+    (hop : NLimitsWithin Lmax [op]) :
+    (nstep s op).net.cur.limiter.WF (nstep s op).net.now Lmax ∧
+    (nstep s op).net.now = s.net.now + nelapsed [op] ∧ s.granted ≤ (nstep s op).granted ∧
+    phiL Lmax (nstep s op).net.cur.limiter (nstep s op).net.now (nstep s op).granted
+      ≤ phiL Lmax s.net.cur.limiter s.net.now s.granted + Lmax * nelapsed [op] + 1024 * minBucket * nchanges [op] := by
+  cases op with
+  | poll pid dt =>
+    obtain ⟨hev, hnow⟩ := netPoll_evolves s.net pid dt s.granted
+    simp only [nstep, nelapsed, nchanges, Nat.add_zero, Nat.mul_zero]
+    rw [hnow]
+    cases hc : s.net.cur with
+    | unlimited b l =>
+      rw [hc] at hev hwf
+      obtain ⟨h1, h2⟩ := hev
+      rw [h1]
+      simp only [limitedTotal, Nat.add_zero, NObj.limiter]
+      have := phiL_mono_time Lmax (.unlimited b l) s.net.now dt s.granted hwf
+      exact ⟨this.1, trivial, Nat.le_refl _, this.2⟩
+    | limited o =>
+      rw [hc] at hev hwf
+      obtain ⟨o', h1, h2⟩ := hev
+      rw [h1]
+      simp only [NObj.limiter] at hwf ⊢
+      obtain ⟨w, e, g, p⟩ := polledAt_phi Lmax h2 hwf.1 hwf.2
+      exact ⟨⟨w, by rw [e]; exact hwf.2⟩, trivial, g, p⟩
+  | setLimit k =>
+    have hkL : k * bytesPerKb ≤ Lmax := hop.1
+    have h := step_phi Lmax s.net.cur.limiter s.net.now s.granted (.setLimit k) hwf ⟨hkL, trivial⟩
+    simp only [step, elapsed, changes, Nat.add_zero, Nat.mul_zero, Nat.mul_one] at h
+    have hcur : (s.net.setLimit k).cur.limiter = setLimit s.net.cur.limiter k := by
+      unfold Net.setLimit
+      cases setLimit s.net.cur.limiter k <;> rfl
+    simp only [nstep, nelapsed, nchanges, Nat.add_zero, Nat.mul_zero, Nat.mul_one]
+    rw [hcur]
+    have hnow : (s.net.setLimit k).now = s.net.now := rfl
+    rw [hnow]
+    exact ⟨h.1, rfl, Nat.le_refl _, h.2.2⟩
+
+theorem nelapsed_cons (op : NOp) (r : List NOp) : nelapsed (op :: r) = nelapsed [op] + nelapsed r := by
+  cases op <;> simp [nelapsed]
+
+theorem nchanges_cons (op : NOp) (r : List NOp) : nchanges (op :: r) = nchanges [op] + nchanges r := by
+  cases op <;> simp [nchanges]
+
+theorem nlimitsWithin_cons (Lmax : Nat) (op : NOp) (r : List NOp) :
+    NLimitsWithin Lmax (op :: r) ↔ NLimitsWithin Lmax [op] ∧ NLimitsWithin Lmax r := by
+  cases op <;> simp [NLimitsWithin]
+
+theorem nrun_phi (Lmax : Nat) : ∀ (ops : List NOp) (s : NRun),
+    s.net.cur.limiter.WF s.net.now Lmax → NLimitsWithin Lmax ops →
+    s.granted ≤ (nrun s ops).granted ∧
+    phiL Lmax (nrun s ops).net.cur.limiter (s.net.now + nelapsed ops) (nrun s ops).granted
+      ≤ phiL Lmax s.net.cur.limiter s.net.now s.granted + Lmax * nelapsed ops + 1024 * minBucket * nchanges ops ∧
+    (nrun s ops).net.now = s.net.now + nelapsed ops
+  | [], s, _, _ => by simp [nrun, nelapsed, nchanges]
+  | op :: r, s, hwf, hops => by
+    rw [nlimitsWithin_cons] at hops
+    obtain ⟨h1, h2, h3, h4⟩ := nstep_phi Lmax s op hwf hops.1
+    obtain ⟨i1, i2, i3⟩ := nrun_phi Lmax r (nstep s op) h1 hops.2
+    have hrun : nrun s (op :: r) = nrun (nstep s op) r := by simp [nrun]
+    have he : nelapsed (op :: r) = nelapsed [op] + nelapsed r := nelapsed_cons op r
+    have hc : nchanges (op :: r) = nchanges [op] + nchanges r := nchanges_cons op r
+    rw [hrun, he, hc]
+    rw [h2] at i2 i3 h4
+    have ha : s.net.now + (nelapsed [op] + nelapsed r) = s.net.now + nelapsed [op] + nelapsed r := by omega
+    rw [ha]
+    refine ⟨by omega, ?_, i3⟩
+    rw [Nat.mul_add, Nat.mul_add]
+    omega
+
+end AioslskVerif.Rate
